@@ -38,6 +38,8 @@ var c32Programs = []c32Prog{
 	{"two-sessions-function", []string{"function vk { out a }; vk", "function vk { out b }; vk"}},
 	{"try-abort", []string{"try { out a -> regexp m/z/; out never }"}},
 	{"two-sessions-pipe", []string{"pipe vq; out 1 -> <vq>; !pipe vq", "pipe vr; !pipe vr"}},
+	{"global-typed-reassign", []string{"global path vpp = /a/b; bg { global path vpp = /c/d }; out $vpp; out $vpp"}},
+	{"two-sessions-typed", []string{"global int vti = 1; global int vti = 2", "out $vti; out $vti"}},
 }
 
 var c32More = []c32Prog{
@@ -180,7 +182,8 @@ func objectLevel(c *vlib.Ctx, seen map[string]bool) {
 					q = append(q, sc)
 				}
 				n01++
-			case !strings.Contains(sc.Name, ";"):
+			case strings.Count(sc.Name, ";") <= 1:
+				// registry pairs with at most three operations in total
 				q = append(q, sc)
 			}
 		}
@@ -269,7 +272,7 @@ func init() {
 		ID: "C32", Engine: "E1",
 		Rule: "each listed program (sequential pipelines/functions plus concurrent vocabulary: bg, foreach --parallel, named pipes, two sessions sharing globals/config/functions/pipes) is executed by the real interpreter, built with the Go race detector, under the controlled scheduler whose hand-offs are invisible to the detector; ALL schedules with at most B deviations from the default schedule are enumerated and the detector's log is read after every execution; a report counts when at least one of the two accesses is made by murex code; distinct races are keyed by the unordered pair of innermost murex functions; non-trivial = schedules with at least one deviation; a built-in canary race must be reported or the check exits 2",
 		Run: func(c *vlib.Ctx) {
-			progs, b := c32Programs[4:9], 1 // quick: the core of the concurrent vocabulary
+			progs, b := append(append([]c32Prog{}, c32Programs[4:9]...), c32Programs[11:]...), 1 // quick: the concurrent vocabulary
 			if !c.Quick() {
 				progs, b = append(append([]c32Prog{}, c32Programs...), c32More...), 2
 			}
